@@ -45,6 +45,15 @@ pub enum Scen {
     Params(ParamVar),
     /// simulated transcript: random responses, T := Com(z) - c*C; `known` = C has a known opening
     Simulated { known: bool, zseed: u64, cseed: u64, check_other: bool },
+    /// relation-satisfying transcripts with a degenerate element — the verifier accepts *exactly* the
+    /// relation, so these must be accepted: shape 0 — T is the identity (responses = c·opening of C);
+    /// shape 1 — C is the identity (opening all zero; T = Com(z)); shape 2 — all responses zero
+    /// (T = −c·C); shape 3 — T and C both the identity, all responses zero; shape 4 — exactly one
+    /// message response is zero, the others random (T = Com(z) − c·C); shape 5 — only the blinding
+    /// factor's response is zero. Signature proofs keep
+    /// their honest (σ', C) for the pairing link and use shapes 0 (with the library's own prover under
+    /// an all-zero commitment-scalar stream) and 2.
+    DegenerateValid { shape: u8, oseed: u64, cseed: u64 },
     /// signature proofs on degenerate signatures (Sig kind only; other kinds fall back to Honest)
     Degenerate(u8),
     /// several fields moved together so that the individual discrepancies compensate:
@@ -96,6 +105,7 @@ fn strategy(_t: Tier) -> impl Strategy<Value = Case> {
         3 => (any::<bool>(), any::<u64>(), any::<u64>(), any::<bool>())
             .prop_map(|(known, zseed, cseed, check_other)| Scen::Simulated { known, zseed, cseed, check_other }),
         2 => (0u8..4).prop_map(Scen::Degenerate),
+        3 => (0u8..6, any::<u64>(), any::<u64>()).prop_map(|(shape, oseed, cseed)| Scen::DegenerateValid { shape, oseed, cseed }),
         4 => (0u8..3, any::<u16>(), delta_spec(), any::<bool>())
             .prop_map(|(which, base, d, neg)| Scen::Compensated { which, base, d, neg }),
     ];
@@ -405,6 +415,116 @@ fn run<const N: usize>(c: &Case, rec: &Rec) -> R {
             let other = if *check_other { ch } else { challenge_from_seed(cseed.wrapping_add(1)) };
             compare(rec, "simulated/other-challenge", lib_verify(kind, &sim.bytes, other, &own), ref_verify(kind, &img, &sim.bytes, &other.to_scalar(), &own), Some(false), N, kind)?;
             fp = format!("sim:{}:{}", known, zseed);
+        }
+        Scen::DegenerateValid { shape, oseed, cseed } => {
+            let pre = prefix(kind);
+            let mut sim = img.clone();
+            let csim = challenge_from_seed(*cseed);
+            let cs = csim.to_scalar();
+            let cpath = format!("{}commitment", pre);
+            let tpath = format!("{}scalar_commitment", pre);
+            let zpath = format!("{}blinding_factor_response_scalar", pre);
+            let zidx = img.list(&format!("{}message_response_scalars", pre));
+            // a fresh opening (m', r') of a fresh commitment C' (not available for signature proofs,
+            // whose C is tied to the blinded signature by the pairing equation)
+            let r0 = rand_scalar(oseed ^ 0x0bf);
+            let m0: Vec<Scalar> = (0..N).map(|i| c.msg[i].get() + rand_scalar(oseed.wrapping_add(i as u64 + 1)) * Scalar::from((oseed & 1) as u64)).collect();
+            let zero = Scalar::zero();
+            let mut shape = *shape % 6;
+            if kind == PKind::Sig && (shape == 1 || shape == 3) {
+                shape = 2;
+            }
+            if kind == PKind::Sig && shape == 0 {
+                // T = identity needs the opening of the honest C, which only the library's prover has:
+                // run it with every commitment scalar fixed to zero and an all-zero stream for the
+                // blinding factor's commitment scalar (drawn after the signature blinding)
+                let k = keys::<N>(c.key as u64);
+                let pk = own.pk.as_ref().unwrap();
+                let m = scalars::<N>(&c.msg);
+                let sig = Message::new(m).sign(&mut rng(c.seed ^ 0x51), &k.kp);
+                let mut found = None;
+                {
+                    // pass 1: record the draws; then zero each 64-byte draw in turn (last first) until T is the identity
+                    let mut probe = ScriptedRng::new(c.seed ^ 0x52, vec![]);
+                    let _ = SignatureProofBuilder::<N>::generate_proof_commitments(&mut probe, Message::new(m), sig, &[Some(zero); N], pk);
+                    let draws: Vec<(usize, usize)> = probe.log.iter().filter(|d| d.1 == 64).cloned().collect();
+                    for d in draws.iter().rev() {
+                        let mut zr = ScriptedRng::new(c.seed ^ 0x52, vec![Window { off: d.0, len: d.1, pat: Pattern::Zero }]);
+                        let b = SignatureProofBuilder::<N>::generate_proof_commitments(&mut zr, Message::new(m), sig, &[Some(zero); N], pk);
+                        let ch2 = ChallengeBuilder::new().with(&b).finish();
+                        let pr = b.generate_proof_response(ch2);
+                        let pi = Image::must(&pr);
+                        let t_is_identity = G2Projective::from_atom(pi.get(&tpath)).map(|t| bool::from(t.is_identity())).unwrap_or(false);
+                        let s1_ok = G1Projective::from_atom(pi.get("blinded_signature.sigma1")).map(|t| !bool::from(t.is_identity())).unwrap_or(false);
+                        if t_is_identity && s1_ok {
+                            found = Some((pi, ch2));
+                            break;
+                        }
+                    }
+                }
+                match found {
+                    Some((pi, ch2)) => {
+                        compare(rec, "degenerate-valid/T-identity(prover)", lib_verify(kind, &pi.bytes, ch2, &own), ref_verify(kind, &img, &pi.bytes, &ch2.to_scalar(), &own), Some(true), N, kind)?;
+                    }
+                    None => rec.class("Sig/degenerate-valid/T-identity(prover)/not-reached"),
+                }
+                fp = format!("degv:sigT:{}", c.seed);
+            } else {
+                let (cm, rr): (Vec<Scalar>, Scalar) = match shape {
+                    1 | 3 => (vec![zero; N], zero),
+                    _ => (m0.clone(), r0),
+                };
+                // responses
+                let (z, zbf): (Vec<Scalar>, Scalar) = match shape {
+                    0 => (cm.iter().map(|m| *m * cs).collect(), rr * cs),
+                    1 => ((0..N as u64).map(|i| rand_scalar(oseed ^ (0x77 + i))).collect(), rand_scalar(oseed ^ 0x76)),
+                    4 => {
+                        let j = (*oseed >> 8) as usize % N;
+                        ((0..N).map(|i| if i == j { zero } else { rand_nonzero_scalar(oseed ^ (0x77 + i as u64)) }).collect(), rand_nonzero_scalar(oseed ^ 0x76))
+                    }
+                    5 => ((0..N as u64).map(|i| rand_nonzero_scalar(oseed ^ (0x77 + i))).collect(), zero),
+                    _ => (vec![zero; N], zero),
+                };
+                sim.set(&zpath, &zbf.to_bytes());
+                for (j, i) in zidx.iter().enumerate() {
+                    sim.set_at(*i, &z[j].to_bytes());
+                }
+                match kind {
+                    PKind::ComG1 | PKind::Req => {
+                        let cp = pedersen(&own.h1, &own.g1s, &cm, &rr);
+                        let t = pedersen(&own.h1, &own.g1s, &z, &zbf) - cp * cs;
+                        sim.set(&cpath, &cp.to_atom());
+                        sim.set(&tpath, &t.to_atom());
+                    }
+                    PKind::ComG2 => {
+                        let cp = pedersen(&own.h2, &own.g2s, &cm, &rr);
+                        let t = pedersen(&own.h2, &own.g2s, &z, &zbf) - cp * cs;
+                        sim.set(&cpath, &cp.to_atom());
+                        sim.set(&tpath, &t.to_atom());
+                    }
+                    PKind::Sig => {
+                        // shapes 2, 4, 5: honest C kept, T = Com(z) - c*C
+                        let cp = G2Projective::from_atom(img.get(&cpath)).unwrap();
+                        let t = pedersen(&own.h2, &own.g2s, &z, &zbf) - cp * cs;
+                        sim.set(&tpath, &t.to_atom());
+                    }
+                }
+                let what = ["degenerate-valid/T-identity", "degenerate-valid/C-identity", "degenerate-valid/zero-responses", "degenerate-valid/all-identity", "degenerate-valid/one-zero-response", "degenerate-valid/zero-bf-response"][shape as usize];
+                let lib = lib_verify(kind, &sim.bytes, csim, &own);
+                if lib.is_none() {
+                    // the codec refuses this element in this position: nothing to verify (C15's business)
+                    rec.class(&format!("{:?}/{}/undecodable", kind, what));
+                } else {
+                    compare(rec, what, lib, ref_verify(kind, &img, &sim.bytes, &cs, &own), Some(true), N, kind)?;
+                    // and never under another challenge, unless the transcript is challenge-independent
+                    // (C and T both the identity with zero responses satisfies the relation for every c)
+                    if shape != 3 {
+                        let other = challenge_from_seed(cseed.wrapping_add(1));
+                        compare(rec, &format!("{}/other-challenge", what), lib_verify(kind, &sim.bytes, other, &own), ref_verify(kind, &img, &sim.bytes, &other.to_scalar(), &own), None, N, kind)?;
+                    }
+                }
+                fp = format!("degv:{}:{}", shape, oseed);
+            }
         }
         Scen::Compensated { which, base, d, neg } => {
             let pre = prefix(kind);
